@@ -237,7 +237,8 @@ class GameCoordinator:
             try:
                 starting_positions[agent_role] = self.task_config.get_start_position(agent_role=agent_role)
                 self.logger.info(f"Starting position for role '{agent_role}': {starting_positions[agent_role]}")
-            except KeyError:
+            except (KeyError, TypeError):
+                # role not configured (missing or empty section)
                 starting_positions[agent_role] = {}
         return starting_positions
     
@@ -249,7 +250,7 @@ class GameCoordinator:
         for agent_role in self.ALLOWED_ROLES:
             try:
                 win_conditions[agent_role] = self.task_config.get_win_conditions(agent_role=agent_role)
-            except KeyError:
+            except (KeyError, TypeError):
                 win_conditions[agent_role] = {}
             self.logger.info(f"Win condition for role '{agent_role}': {win_conditions[agent_role]}")
         return win_conditions
@@ -262,7 +263,7 @@ class GameCoordinator:
         for agent_role in self.ALLOWED_ROLES:
             try:
                 goal_descriptions[agent_role] = self.task_config.get_goal_description(agent_role=agent_role)
-            except KeyError:
+            except (KeyError, TypeError):
                 goal_descriptions[agent_role] = ""
             self.logger.info(f"Goal description for role '{agent_role}': {goal_descriptions[agent_role]}")
         return goal_descriptions
@@ -435,9 +436,13 @@ class GameCoordinator:
                     return
                 agent_name = action.parameters["agent_info"].name
                 agent_role = action.parameters["agent_info"].role
-                if agent_role in self.ALLOWED_ROLES:
+                if agent_role in self.ALLOWED_ROLES and self._starting_positions_per_role.get(agent_role):
                     # add agent to the world
-                    new_agent_game_state = await self.register_agent(agent_addr, agent_role, self._starting_positions_per_role[agent_role])
+                    try:
+                        new_agent_game_state = await self.register_agent(agent_addr, agent_role, self._starting_positions_per_role[agent_role])
+                    except Exception as e:
+                        self.logger.error(f"Registration of agent {agent_addr} failed: {e}")
+                        new_agent_game_state = None
                     if new_agent_game_state: # successful registration
                         async with self._agents_lock:
                             self.agents[agent_addr] = (agent_name, agent_role)
